@@ -26,7 +26,8 @@
 (***************************************************************************)
 EXTENDS ConGen, CorruptRules
 
-CONSTANT Stages        \* TRUE: PickValue / CorruptAt are enabled (model checking); FALSE: generator only
+CONSTANTS Stages,      \* TRUE: PickValue / CorruptAt are enabled (model checking); FALSE: generator only
+          Taus         \* the set of Python type tags tried at every node (a subset of TauUniverse)
 
 VARIABLES gStage, gVi, gCi
 cvars == <<gEnv, gT, gDepth, gStage, gVi, gCi>>
@@ -42,7 +43,7 @@ ConCorruptions(e, T, v) ==
 
 Corruptions(e, T, v) ==
   LET ns == Nodes(e, T, v)
-  IN Concat([j \in 1..Len(ns) |-> NodeCorruptions(e, ns[j])]) \o ConCorruptions(e, T, v)
+  IN Concat([j \in 1..Len(ns) |-> NodeCorruptions(e, ns[j], SelectSeq(TauUniverse, LAMBDA t : t \in Taus))]) \o ConCorruptions(e, T, v)
 
 CorKey(c) == PosKey(c.pos) \o "#" \o c.kind \o "#" \o c.tau \o c.member \o c.nb
 
